@@ -27,14 +27,14 @@ for (prop, what), pats in sorted(seen.items()):
     rows.append("| %s | %s | %s |" % (prop, what.replace("|", "\\|"), "; ".join(pats).replace("|", "\\|")))
 block("known", "\n".join(rows))
 rows = ["| seeded change | property | what it needs to manifest | caught by |", "|---|---|---|---|"]
-for d in sorted(glob.glob(V + "/seeded/*")):
+for d in sorted(glob.glob(V + "/seeded/*/")):
     m = json.load(open(d + "/meta.json"))
-    rows.append("| `seeded/%s` | %s | %s | %s |" % (os.path.basename(d), m["breaks_property"], m["needs_to_manifest"].replace("|", "\\|"), m["caught_by"].replace("|", "\\|")))
+    rows.append("| `seeded/%s` | %s | %s | %s |" % (os.path.basename(d.rstrip("/")), m["breaks_property"], m["needs_to_manifest"].replace("|", "\\|"), m["caught_by"].replace("|", "\\|")))
 block("seeded", "\n".join(rows))
 rows = ["| property-preserving change | property | what changes observably | checks run (all must stay silent) |", "|---|---|---|---|"]
-for d in sorted(glob.glob(V + "/benign/*")):
+for d in sorted(glob.glob(V + "/benign/*/")):
     m = json.load(open(d + "/meta.json"))
-    rows.append("| `benign/%s` | %s | %s | %s |" % (os.path.basename(d), m["preserves_property"], m["observable_change"].replace("|", "\\|"), m["checks_run"].replace("|", "\\|")))
+    rows.append("| `benign/%s` | %s | %s | %s |" % (os.path.basename(d.rstrip("/")), m["preserves_property"], m["observable_change"].replace("|", "\\|"), m["checks_run"].replace("|", "\\|")))
 block("benign", "\n".join(rows))
 open(V + "/DESIGN.md", "w").write(s)
-print("DESIGN.md tables regenerated: %d fixed, %d known groups, %d seeded" % (len(fixed), len(seen), len(glob.glob(V + "/seeded/*"))))
+print("DESIGN.md tables regenerated: %d fixed, %d known groups, %d seeded" % (len(fixed), len(seen), len(glob.glob(V + "/seeded/*/"))))
